@@ -102,6 +102,19 @@ def translate(repo):
     p_pool = trait_impl_fns(pp, r"\bimpl\s+gmsol_model::Pool\s+for\s+Pool\s*\{", "program impl Pool for Pool")
     s_bal = trait_impl_fns(sp, r"\bimpl\s+gmsol_model::Balance\s+for\s+Pool\s*\{", "SDK impl Balance for Pool")
     s_pool = trait_impl_fns(sp, r"\bimpl\s+gmsol_model::Pool\s+for\s+Pool\s*\{", "SDK impl Pool for Pool")
+    def free_fn(src, name):
+        ms = list(re.finditer(r"(?m)^(?:pub(?:\([a-z]+\))?\s+)?fn\s+" + name + r"\s*\(", src))
+        if len(ms) > 1:
+            raise TranslateError(f"free fn {name} defined {len(ms)} times")
+        if not ms:
+            return ""
+        p_ = src.find("(", ms[0].end() - 1)
+        q_ = match_close(src, p_)
+        b_ = src.find("{", q_)
+        return " ".join(src[p_ : match_close(src, b_) + 1].split())
+
+    p_cancel_fn = free_fn(pp, "cancel_amounts")
+    s_cancel_fn = free_fn(sp, "cancel_amounts")
     p_is_pure = trait_impl_fns(pp, r"\bimpl\s+Pool\s*\{", "program impl Pool")
     s_is_pure = trait_impl_fns(ss, r"\bimpl\s+Pool\s*\{", "SDK impl Pool")
     # ---- constants
@@ -126,7 +139,8 @@ def translate(repo):
                 p_pool_get=p_pool_get, p_pool_get_mut=p_pool_get_mut, s_pool_get=s_pool_get, s_pool_get_mut=s_pool_get_mut,
                 p_clock_get=p_clock_get, p_clock_get_mut=p_clock_get_mut, s_clock_get=s_clock_get,
                 p_bal=p_bal, p_pool=p_pool, s_bal=s_bal, s_pool=s_pool,
-                p_is_pure=p_is_pure.get("is_pure", ""), s_is_pure=s_is_pure.get("is_pure", ""), const_pairs=const_pairs)
+                p_is_pure=p_is_pure.get("is_pure", ""), s_is_pure=s_is_pure.get("is_pure", ""), const_pairs=const_pairs,
+                p_cancel_fn=p_cancel_fn, s_cancel_fn=s_cancel_fn)
 
 
 def emit(t):
@@ -155,6 +169,8 @@ def emit(t):
     for nm, d in (("p_balance_impl", t["p_bal"]), ("s_balance_impl", t["s_bal"]), ("p_pool_impl", t["p_pool"]), ("s_pool_impl", t["s_pool"])):
         pl(nm, [(k, esc(v)) for k, v in d.items()])
     o.append(f"Definition p_pool_is_pure : string := {cq(esc(t['p_is_pure']))}.\nDefinition s_pool_is_pure : string := {cq(esc(t['s_is_pure']))}.\n\n")
+    o.append("(* the free helper `cancel_amounts(long, short)` used by the override (signature + body; empty if absent) *)\n")
+    o.append(f"Definition p_cancel_amounts_fn : string := {cq(esc(t['p_cancel_fn']))}.\nDefinition s_cancel_amounts_fn : string := {cq(esc(t['s_cancel_fn']))}.\n\n")
     o.append("(* constants that exist on both sides: name, program value, SDK value *)\n")
     o.append("Definition const_pairs : list (string * Z * Z) := " + clist([f"({cq(n)}, {cz(a)}, {cz(b)})" for n, a, b in t["const_pairs"]]) + ".\n")
     return "".join(o)
